@@ -29,6 +29,7 @@ import PhQVerif.Generated.Obl_C10mag
 import PhQVerif.Generated.Obl_C10scale
 import PhQVerif.Generated.Obl_C17access
 import PhQVerif.Theory.Access
+import PhQVerif.Theory.RelErr
 import PhQVerif.Theory.Arith
 
 namespace PhQVerif.Props.C10
@@ -163,6 +164,36 @@ theorem typed_component_accessors :
     | [ex], h =>
       simp only [Bool.and_eq_true, decide_eq_true_eq] at h
       exact ⟨ex, rfl, h.1, fun L env => isVar_sound h.2 L env⟩
+
+/-- The output expressions of the normalising branch (squared length positive) of a direction tree. -/
+def normalisedOuts : DTree → List Expr
+  | .node _ _ _ (.leaf outs) _ => outs.filterMap fun o => match o with | .num e => some e | _ => none
+  | _ => []
+
+/-- At most 7 roundings in any normalised component that lies in the positive fragment (399 of the 426
+slots of the 174 direction-producing entries; the others come after a subtraction, e.g. a cross
+product). -/
+theorem normalised_rounding_counts :
+    (quantityEntries.filter (fun e => e.producesDirection classes && dirTreeOk e.fm e.tree)).all
+      (fun e => (normalisedOuts e.tree).all (fun ex =>
+        match posFrag e.fm.fmt.p ex with | some k => decide (k ≤ 7) | none => true)) = true := by
+  decide +kernel
+
+/-- **C10 (floating-point accuracy of the components) — partial.** For every direction-producing entry
+and every normalised component whose formula is in the positive fragment (count `k ≤ 7`): for all
+positive inputs without intermediate under- or overflow the computed component is within `k` roundings
+of the exact `cᵢ / ‖c‖` (the real value of the traced formula, `every_path_normalises`). Partial: the
+statement covers positive components only (the general-sign case needs the sign symmetry of the
+floating-point operations, not proved), and `k ≤ 7` roundings per component gives `|‖d‖ - 1| ≲ 7u`
+rather than the `4u` of the property, because the square root is only bounded by two roundings here;
+the real-code search checks the `4u` bound for all signs. -/
+theorem normalised_components_few_ulps_partial :
+    ∀ e ∈ quantityEntries, ∀ ex ∈ normalisedOuts e.tree, ∀ k, posFrag e.fm.fmt.p ex = some k →
+      ∀ (L : Libm) (env : Nat → Fl) (x : Nat → ℝ), (∀ i, 0 < x i ∧ Fl.toReal (env i) = x i) →
+        InRange L env ex →
+        Within ((2 : ℝ) ^ (-(e.fm.fmt.p : Int))) k (Fl.toReal (ex.evalF L env)) (ex.evalR x) := by
+  intro e _ ex _ k hk L env x henv hr
+  exact posFrag_sound e.fm.fmt.p (fm_p_pos e.fm) ex k hk L env x henv hr
 
 /-! ### Non-vacuity -/
 
